@@ -40,6 +40,97 @@ def fmtF6Chars (bits : UInt64) : List Char :=
 
 def fmtF6 (bits : UInt64) : String := String.ofList (fmtF6Chars bits)
 
+-- shortest round-trip formatting (strconv.FormatFloat(x, 'g', -1, 64), i.e. fmt's %v) --------------------
+
+abbrev Q := Nat × Nat     -- numerator, denominator (> 0)
+
+def Q.le (a b : Q) : Bool := a.1 * b.2 ≤ b.1 * a.2
+def Q.lt (a b : Q) : Bool := a.1 * b.2 < b.1 * a.2
+def Q.scale10 (q : Q) (k : Int) : Q := if k ≥ 0 then (q.1 * 10^k.toNat, q.2) else (q.1, q.2 * 10^(-k).toNat)
+
+def numDigits (n : Nat) : Nat := (Nat.repr n).length
+
+/-- the decimal exponent X of a positive rational: 10^(X-1) ≤ q < 10^X -/
+def decExp (q : Q) : Int :=
+  if q.1 ≥ q.2 then (numDigits (q.1 / q.2) : Int)
+  else
+    let rec go (fuel j : Nat) : Nat :=
+      match fuel with
+      | 0 => j
+      | f + 1 => if q.1 * 10^j ≥ q.2 then j else go f (j + 1)
+    1 - (go 400 1 : Int)
+
+/-- shortest decimal digits of a finite positive double: (digits as a number without trailing zeros, dp) with
+    value = 0.d1d2… × 10^dp, the unique shortest decimal inside the rounding interval, closest to the value -/
+def shortestDigits (m : Nat) (e : Int) (boundary : Bool) : Nat × Int :=
+  let ep := e.toNat
+  let en := (-e).toNat
+  let v : Q := (m * 2^ep, 2^en)
+  let hi : Q := ((2 * m + 1) * 2^ep, 2^(en + 1))
+  let lo : Q := if boundary then ((4 * m - 1) * 2^ep, 2^(en + 2)) else ((2 * m - 1) * 2^ep, 2^(en + 1))
+  let even := m % 2 == 0
+  let X := decExp v
+  let inside (c : Nat) (k : Int) : Bool :=
+    let cq : Q := Q.scale10 (c, 1) (-k)
+    if even then Q.le lo cq && Q.le cq hi else Q.lt lo cq && Q.lt cq hi
+  let rec search (fuel n : Nat) : Nat × Int :=
+    match fuel with
+    | 0 => (m, 0)
+    | fuel' + 1 =>
+      let k : Int := (n : Int) - X
+      let s := Q.scale10 v k
+      let f := s.1 / s.2
+      let r := s.1 % s.2
+      let inF := inside f k && f != 0
+      let inC := r != 0 && inside (f + 1) k
+      let pick : Option Nat :=
+        if inF && inC then
+          (if 2 * r < s.2 then some f else if 2 * r > s.2 then some (f + 1) else if f % 2 == 0 then some f else some (f + 1))
+        else if inF then some f else if inC then some (f + 1) else none
+      match pick with
+      | none => search fuel' (n + 1)
+      | some c =>
+        let L := numDigits c
+        let rec strip (fuel c : Nat) : Nat :=
+          match fuel with
+          | 0 => c
+          | g + 1 => if c % 10 == 0 && c != 0 then strip g (c / 10) else c
+        (strip 20 c, X + ((L : Int) - (n : Int)))
+  search 18 1
+
+/-- `eprec`: 6 for strconv 'g' with shortest precision (fmt's %v) -/
+def fmtShortestChars (bits : UInt64) (eprec : Int := 6) : List Char :=
+  let b : Nat := bits.toNat
+  let sign : Nat := b / 2^63
+  let ex : Nat := (b / 2^52) % 2048
+  let frac : Nat := b % 2^52
+  let sg : List Char := if sign == 1 then ['-'] else []
+  if ex == 2047 then
+    if frac == 0 then (if sign == 1 then "-Inf".toList else "+Inf".toList) else "NaN".toList
+  else if ex == 0 && frac == 0 then sg ++ ['0']
+  else
+    let m : Nat := if ex == 0 then frac else frac + 2^52
+    let e : Int := (if ex == 0 then (1:Int) else (ex : Int)) - 1075
+    let boundary := frac == 0 && ex > 1
+    let (d, dp) := shortestDigits m e boundary
+    let ds := natDigits d
+    let nd := ds.length
+    let exp := dp - 1
+    if exp < -4 || exp ≥ eprec then
+      -- %e
+      let mant := match ds with
+        | [] => ['0']
+        | [c] => [c]
+        | c :: rest => c :: '.' :: rest
+      let ea := natDigits exp.natAbs
+      sg ++ mant ++ ['e'] ++ [if exp < 0 then '-' else '+'] ++ padLeft 2 '0' ea
+    else if dp ≤ 0 then
+      sg ++ "0.".toList ++ List.replicate (-dp).toNat '0' ++ ds
+    else if (nd : Int) ≤ dp then
+      sg ++ ds ++ List.replicate (dp.toNat - nd) '0'
+    else
+      sg ++ ds.take dp.toNat ++ ['.'] ++ ds.drop dp.toNat
+
 def intChars (i : Int) : List Char :=
   if i < 0 then '-' :: natDigits i.natAbs else natDigits i.natAbs
 
